@@ -22,7 +22,7 @@ use open_hypergraphs::strict::functor::optic::Optic;
 use open_hypergraphs::strict::functor::{define_map_arrow, Functor};
 use open_hypergraphs::strict::hypergraph::arrow::HypergraphArrow;
 use open_hypergraphs::strict::hypergraph::Hypergraph;
-use open_hypergraphs::strict::layer::layer;
+use open_hypergraphs::strict::layer::{layer, layered_operations};
 use open_hypergraphs::strict::open_hypergraph::OpenHypergraph;
 use serde_json::{json, Value};
 use std::cell::RefCell;
@@ -160,6 +160,10 @@ fn adv_eval(f: &AOh<u32, Gate>, inputs: Vec<u64>) -> Result<Option<Vec<u64>>, Pa
         })
         .map(|v| v.0)
     });
+    if *bad.borrow() {
+        // an ill-formed argument batch handed to the interpreter: reported as a failed call
+        return Err(PanicInfo { msg: "eval handed the interpreter an ill-formed argument segmentation".into(), file: "/repo/src/strict/eval.rs".into(), line: 0 });
+    }
     r
 }
 
@@ -216,6 +220,34 @@ impl C20 {
                 ctx.check(false, "compose/defined-on-both-backends/value/any", || json!({"input": input(), "adv_some": a.is_some(), "vec_some": v.is_some()}));
             }
         }
+        // mismatching boundary: refused on both backends (the comparison of the boundary types goes through
+        // the backend's own equality)
+        if r.chance(1, 5) && !g.s.is_empty() {
+            let mut g2 = g.clone();
+            let k = r.below(g2.s.len());
+            g2.w.push(g2.w[g2.s[k]] + 1);
+            g2.s[k] = g2.w.len() - 1;
+            let (ag2, vg2) = (to_adv(&g2), to_strict(&g2));
+            let inp = || json!({"sigma": sigma, "f": show(&f), "g": show(&g2)});
+            let a = lib(ctx, "adv::compose", "types_differ", &inp, || af.compose(&ag2).is_some());
+            let v = lib(ctx, "vec::compose", "types_differ", &inp, || vf.compose(&vg2).is_some());
+            ctx.count("op:compose_refusal");
+            ctx.check(a == Some(false) && v == Some(false), "compose/refuses-mismatching-boundary-on-both-backends/value/any", || json!({"input": inp(), "adv_some": a, "vec_some": v}));
+        }
+        // the library's identity functor at the adversarial backend
+        if let Some(a) = lib(ctx, "adv::Identity::map_arrow", "any", &input, || open_hypergraphs::strict::functor::identity::Identity.map_arrow(&af)) {
+            ctx.count("op:identity_functor");
+            match from_adv(&a) {
+                Ok(pa) => {
+                    if ctx.check(pa.src_type() == f.src_type() && pa.tgt_type() == f.tgt_type(), "adv::Identity::map_arrow/type/value/any", || json!({"input": input(), "observed": show(&pa)})) {
+                        expect_iso(ctx, "adv::Identity::map_arrow", "isomorphic-to-argument", "any", &pa, &f, &input);
+                    }
+                }
+                Err(e) => {
+                    ctx.check(false, "adv::Identity::map_arrow/well-formed/value/any", || json!({"input": input(), "observed": e}));
+                }
+            }
+        }
         // tensor: no open choice is involved, data must be identical
         let a = lib(ctx, "adv::tensor", "any", &input, || af.tensor(&ag));
         ctx.count("op:tensor");
@@ -226,10 +258,10 @@ impl C20 {
         // functor
         let spec = FSpec::random(r);
         let input2 = || json!({"sigma": sigma, "functor": format!("{:?}", spec), "f": show(&f)});
-        ctx.count("op:functor");
         if f.w.len() <= 6 && f.e.len() <= 4 {
             let a = lib(ctx, "adv::Functor::map_arrow", "any", &input2, || AdvSpecFunctor(spec.clone()).map_arrow(&af));
             if let (Some(a), Ok(want)) = (a, spec.apply(&f)) {
+                ctx.count("op:functor");
                 match from_adv(&a) {
                     Ok(pa) => {
                         let ty = pa.src_type() == want.result.src_type() && pa.tgt_type() == want.result.tgt_type();
@@ -257,16 +289,19 @@ impl C20 {
         };
         let input = || json!({"sigma": sigma, "optic": format!("{:?}", spec), "f": show(&f)});
         ctx.nontrivial(&("optic", sigma, &spec, &f));
-        ctx.count("op:optic");
         adv::set_seed(sigma);
         let af = to_adv(&f);
         let optic = adv_optic(&spec);
         let (a, b) = (f.src_type(), f.tgt_type());
         let want = match spec.optic(&f) {
             Ok(w) => w,
-            Err(_) => return,
+            Err(e) => {
+                ctx.inconclusive(&format!("model optic failed: {:?}", e));
+                return;
+            }
         };
         if let Some(img) = lib(ctx, "adv::Optic::map_arrow", "any", &input, || optic.map_arrow(&af)) {
+            ctx.count("op:optic");
             match from_adv(&img) {
                 Ok(p) => {
                     let ty = p.src_type() == spec.interleaved(&a) && p.tgt_type() == spec.interleaved(&b);
@@ -313,7 +348,54 @@ impl C20 {
                     ctx.violation(&format!("adv::layer/{}/value/any", clause), json!({"input": input(), "layer": ao.table.0, "unvisited": au.0, "why": why}));
                 }
             }
-            ctx.check(au.0 == vu.0, "layer/same-unvisited-flags-across-backends/value/any", || json!({"input": input(), "adv": au.0, "vec": vu.0}));
+            let same = au.0.len() == vu.0.len() && au.0.iter().zip(vu.0.iter()).all(|(a, b)| (*a != 0) == (*b != 0));
+            ctx.check(same, "layer/same-unvisited-flags-across-backends/value/any", || json!({"input": input(), "adv": au.0, "vec": vu.0}));
+        }
+        // the grouped form at the adversarial backend: every visited operation once, in the group of a valid
+        // layering; flags as on the Vec backend
+        {
+            let al = lib(ctx, "adv::layered_operations", "any", &input, || layered_operations(&af));
+            let vl = lib(ctx, "vec::layer", "any", &input, || layer(&vf));
+            if let (Some((groups, au)), Some((_vo, vu))) = (al, vl) {
+                ctx.count("op:layered_operations");
+                let m = p.e.len();
+                let mut group_of: Vec<Option<usize>> = vec![None; m];
+                let mut ok = au.0.len() == m;
+                let mut twice = false;
+                for (gi, g) in groups.iter().enumerate() {
+                    for &y in g.0.iter() {
+                        if y >= m {
+                            ok = false;
+                            continue;
+                        }
+                        if ok && au.0[y] == 0 {
+                            if group_of[y].is_some() {
+                                twice = true;
+                            }
+                            group_of[y] = Some(gi);
+                        }
+                    }
+                }
+                if ok && !twice {
+                    // the group index of every visited operation must be a valid layering
+                    let order: Vec<usize> = (0..m).map(|y| group_of[y].unwrap_or(0)).collect();
+                    let missing = (0..m).any(|y| au.0[y] == 0 && group_of[y].is_none());
+                    match (missing, judge_layering(&succ, &order, &au.0)) {
+                        (false, Ok(())) => ctx.evaluations += 1,
+                        (true, _) => {
+                            ctx.check(false, "adv::layered_operations/exactly-once-in-own-group/value/any", || json!({"input": input(), "groups": groups.iter().map(|g| g.0.clone()).collect::<Vec<_>>(), "unvisited": au.0}));
+                        }
+                        (_, Err((clause, why))) => {
+                            ctx.evaluations += 1;
+                            ctx.violation(&format!("adv::layered_operations/{}/value/any", clause), json!({"input": input(), "groups": groups.iter().map(|g| g.0.clone()).collect::<Vec<_>>(), "unvisited": au.0, "why": why}));
+                        }
+                    }
+                } else {
+                    ctx.check(false, "adv::layered_operations/exactly-once-in-own-group/value/any", || json!({"input": input(), "groups": groups.iter().map(|g| g.0.clone()).collect::<Vec<_>>(), "unvisited": au.0}));
+                }
+                let same = au.0.len() == vu.0.len() && au.0.iter().zip(vu.0.iter()).all(|(a, b)| (*a != 0) == (*b != 0));
+                ctx.check(same, "layered_operations/same-unvisited-flags-across-backends/value/any", || json!({"input": input(), "adv": au.0, "vec": vu.0}));
+            }
         }
         // predicates and degrees
         ctx.count("op:predicates");
@@ -457,6 +539,9 @@ impl Monitor for C20 {
             ("op:functor", 100),
             ("op:optic", 100),
             ("op:layer", 100),
+            ("op:layered_operations", 100),
+            ("op:identity_functor", 100),
+            ("op:compose_refusal", 50),
             ("op:predicates", 100),
             ("op:eval", 100),
             ("op:morphisms", 100),
@@ -475,17 +560,18 @@ impl Monitor for C20 {
         }
         let _ = adv::take_counters();
         let sigma = r.next();
-        match r.below(8) {
-            0 | 1 | 2 => self.categorical(ctx, r, sigma),
-            3 => self.optic(ctx, r, sigma),
-            4 | 5 => self.graph_algorithms(ctx, r, sigma),
-            6 => self.evaluation(ctx, r, sigma),
-            _ => self.morphisms(ctx, r, sigma),
-        }
+        let family = match r.below(8) {
+            0 | 1 | 2 => { self.categorical(ctx, r, sigma); "categorical" }
+            3 => { self.optic(ctx, r, sigma); "optic" }
+            4 | 5 => { self.graph_algorithms(ctx, r, sigma); "layering_and_predicates" }
+            6 => { self.evaluation(ctx, r, sigma); "evaluation" }
+            _ => { self.morphisms(ctx, r, sigma); "morphisms" }
+        };
         let (div, pts) = adv::take_counters();
         for (k, v) in div {
             ctx.count_n(&format!("diverged:{}", k), v);
             ctx.count_n("diverged:any", v);
+            ctx.count_n(&format!("diverged_in:{}", family), v);
         }
         for (k, v) in pts {
             ctx.count_n(&format!("choice:{}", k), v);
